@@ -4,7 +4,7 @@
 # the demonstration fails with it and passes without it. Writes /tmp/seedchk/<Cxx>-<m>.result.json
 set -u
 SLOT=$1; ID=$2; M=$3
-SRC=/root/mut_results/$ID
+SRC=${SRC_ROOT:-/root/mut_results}/$ID
 W=/tmp/seedchk/wt-$SLOT
 export CARGO_TARGET_DIR=/tmp/seedchk/target-$SLOT CARGO_NET_OFFLINE=true
 rm -rf $W; git -C /repo worktree prune; git -C /repo worktree add -q --detach $W HEAD || exit 2
@@ -15,7 +15,7 @@ k=sys.argv[1]; d=dict(a.split('=',1) for a in sys.argv[2:])
 json.dump(d,open(f'/tmp/seedchk/{k}.result.json','w'),indent=1)
 PY
 }
-git apply $SRC/$M.diff || { res $ID-$M status=patch_does_not_apply; exit 1; }
+git apply $SRC/$M.diff || { res ${KEYPFX:-}$ID-$M status=patch_does_not_apply; exit 1; }
 b1=$(cargo build --offline -q 2>&1 | tail -1); b1rc=$?
 cargo build --offline -q --features verif >/dev/null 2>&1; b2rc=$?
 suite=$(cargo test --workspace --no-fail-fast --offline 2>&1 | grep -E "^test result" | tr '\n' ' ')
@@ -26,5 +26,5 @@ cp $SRC/${M}_demo.rs tests/seeded_demo.rs
 demo_without=$(timeout 900 cargo test --offline --test seeded_demo 2>&1 | grep -E "^test result|error(\[|:)" | head -3 | tr '\n' ' ')
 rm -f tests/seeded_demo.rs
 cd /; git -C /repo worktree remove --force $W
-res $ID-$M status=ran "build_default_rc=$b1rc" "build_verif_rc=$b2rc" "suite_with_patch=$suite" "demo_with_patch=$demo_with" "demo_without_patch=$demo_without"
-echo "$ID-$M :: suite[$suite] with[$demo_with] without[$demo_without]"
+res ${KEYPFX:-}$ID-$M status=ran "build_default_rc=$b1rc" "build_verif_rc=$b2rc" "suite_with_patch=$suite" "demo_with_patch=$demo_with" "demo_without_patch=$demo_without"
+echo "${KEYPFX:-}$ID-$M :: suite[$suite] with[$demo_with] without[$demo_without]"
